@@ -72,9 +72,9 @@ def famCli (H : HashFn) (kv : KV) : String × String :=
       | none => "r=err"
     (m, s)
   else if op == "list" then
-    let m := match scanBlockReader H {} true input with
+    let m := match listCmd H input with
       | .error _ => "r=err"
-      | .ok x => if x.ending == .eof then s!"r=ok cids={cidsStr (x.blocks.map (·.cid))}" else "r=err"
+      | .ok cs => s!"r=ok cids={cidsStr cs}"
     (m, s!"r=ok cids={cidsStr (blocks.map (·.cid))}")
   else if op == "getblock" then
     let c := (parseCid (KV.getD kv "c" "")).getD default
